@@ -196,14 +196,18 @@ def context_table(ck, repo, tag="select"):
         if named == "T":
             sel, want_op = "named", lambda t: t is not None and t.endswith(f".get({on})")
         elif single and single[-1] == "T":
-            sel, want_op = "single", lambda t: t is not None and ".popitem()" in t
+            # the only entry of the mapping, however it is fetched
+            sel, want_op = "single", lambda t: t is not None and (".popitem()" in t or (t.startswith("next(iter(") and t.endswith(".values()))")) or
+                                                                   (t.startswith("list(") and t.endswith(".values())[0]")))
         else:
             sel, want_op = "none", lambda t: t in (None, "None")
         found = None if sel == "none" else (truth(r, op_t) if op_t else None)
         verr = [o for t, o in r["conds"] if "coerce_variables(" in t and t.rstrip().endswith("[1]")]
         key = (sel, found, verr[-1] if verr else None)
         n += 1
-        if sel != "none" and not want_op(op_t):
+        if sel == "single" and named != "F":
+            ok, why = False, "the only operation is taken without asking whether a name was requested (an unknown name must be an error, not the lone operation)"
+        elif sel != "none" and not want_op(op_t):
             ok, why = False, f"selected operation is `{op_t}`"
         elif sel == "none" or found == "F":
             ok = first == "None" and second.startswith("[TartifletteError(") and not verr
